@@ -599,8 +599,7 @@ func (w *vWorld) call(idx int, args []vVal) (res []vVal, outcome int) {
 					r := uint64(0xffffffff)
 					if old+delta <= uint64(w.memMax) {
 						r = old
-						grown := verifrt.Bytes("grown", delta<<16)
-						w.mem = append(w.mem, grown...)
+						w.mem = append(w.mem, make([]byte, delta<<16)...) // new pages are zero
 					}
 					w.epoch++
 					set(vVal{lo: r})
